@@ -34,10 +34,11 @@ out.append("### 11.1 Independently written changes (`seeded/<id>/`)\n")
 out.append("Written by sub-agents that were given only the property text and a scratch worktree (rounds 2-4 also a list of "
            "ideas already used, so that they would not repeat them; round 6 ran after the oracles had been reviewed and relaxed); each was confirmed before being kept (patch applies to "
            "HEAD, 433/433 tests pass with it, its demonstration fails with it and passes without it: "
-           "`seeded/<id>/confirm.log`). Four changes are marked *adversarial*: their authors were additionally told in prose "
-           "what the check observes (no file from `/verif`) and asked for a change likely to slip past it - all four did "
-           "slip past the check as it stood and were caught only after the workload had been extended (larger counts, tied "
-           "values and wide nodes, a by-value movable argument, rare characters); the history is in the result column.\n")
+           "`seeded/<id>/confirm.log`). Changes marked *adversarial* (four in round 4, all of round 7) were written by authors who were "
+           "additionally told in prose what the check drives and observes (no file from `/verif`) and asked for a change likely "
+           "to slip past it - nearly all of them did slip past the check as it stood and were caught only after the workload, a "
+           "seam or an oracle had been extended; what was extended is in the result column, so that the table also records "
+           "what the checks could NOT see before. the history is in the result column.\n")
 out.append("| change | property | source | what it needs to manifest | result | violation classes | first run |")
 out.append("|---|---|---|---|---|---|---|")
 for k in sorted(data):
